@@ -68,7 +68,13 @@ func C19_V2_History() {
 			ref, _ = rSet(ref, 2*i, p.keys[i], val)
 		case 2:
 			if !work.present[i] {
-				return // the removal of a missing key is not a write in normal form
+				// the removal of a missing key changes nothing (v1: Remove reports false and leaves every
+				// node alone, so the next commit hash is the reference's)
+				_, removed, err := tree.Remove(p.keys[i])
+				vAssert(err == nil, "c19:remove-missing-err")
+				vAssert(!removed, "c19:remove-missing-flag")
+				vCover("removal-of-a-missing-key")
+				return
 			}
 			// (the value returned by v2's Remove is not part of C19; it is nil because the node is
 			// recycled before its value is read — noted in DESIGN.md, not asserted here)
